@@ -72,6 +72,7 @@ type stream struct {
 	streamEndNotSupportedData    *streamEndNotSupportedData
 	tracerComponent              *tracing.TracerComponent
 	rebalanceLock                sync.Mutex
+	finishLock                   sync.Mutex
 	dirtyLock                    sync.Mutex
 	activeStreams                atomic.Int32
 	streamFinishedWithCloseCh    bool
@@ -227,16 +228,12 @@ func (s *stream) Open() {
 	s.streamFinishedWithCloseCh = false
 	s.streamFinishedWithEndEventCh = false
 
-	// a previous close may have produced both finish signals while only one was consumed;
-	// a left-over one must not stop the client after this reopen
-	select {
-	case <-s.finishStreamWithCloseCh:
-	default:
-	}
-	select {
-	case <-s.finishStreamWithEndEventCh:
-	default:
-	}
+	// every open gets its own finish signals: a signal left over from the previous open, or a waiter
+	// of the previous open that has not acted on its signal yet, must not stop the client after this reopen
+	s.finishLock.Lock()
+	s.finishStreamWithCloseCh = make(chan struct{}, 1)
+	s.finishStreamWithEndEventCh = make(chan struct{}, 1)
+	s.finishLock.Unlock()
 
 	s.eventHandler.BeforeStreamStart()
 
@@ -282,7 +279,7 @@ func (s *stream) Open() {
 
 	s.checkpoint.StartSchedule()
 
-	go s.wait()
+	go s.wait(s.finishStreamWithCloseCh, s.finishStreamWithEndEventCh)
 	s.open = true
 }
 
@@ -419,15 +416,30 @@ func (s *stream) closeAllStreams() {
 	}
 }
 
-func (s *stream) wait() {
+func (s *stream) wait(closeCh chan struct{}, endEventCh chan struct{}) {
+	finishedWithClose := false
+
 	select {
-	case <-s.finishStreamWithCloseCh:
-		s.streamFinishedWithCloseCh = true
-	case <-s.finishStreamWithEndEventCh:
-		s.streamFinishedWithEndEventCh = true
+	case <-closeCh:
+		finishedWithClose = true
+	case <-endEventCh:
 	}
 
 	verifHook("wait.signal")
+
+	s.finishLock.Lock()
+	defer s.finishLock.Unlock()
+
+	if closeCh != s.finishStreamWithCloseCh {
+		// the stream was reopened meanwhile, this signal belongs to the previous open
+		return
+	}
+
+	if finishedWithClose {
+		s.streamFinishedWithCloseCh = true
+	} else {
+		s.streamFinishedWithEndEventCh = true
+	}
 
 	if !s.balancing {
 		close(s.stopCh)
